@@ -155,13 +155,30 @@ def rand_bits(rng, bits):
     return rng.getrandbits(bits) | (1 << (bits - 1))
 
 
-def rand_prime(rng, bits):
+_PRIMORIAL = math.prod(p for p in range(3, 2000) if all(p % q for q in range(2, int(p ** 0.5) + 1)))
+_POOL = {}
+
+
+def fresh_prime(rng, bits):
+    if bits <= 2:
+        return rng.choice([2, 3])
     while True:
         c = rand_bits(rng, bits) | 1
-        if bits <= 2:
-            c = rng.choice([2, 3])
+        if bits > 24 and (math.gcd(c, _PRIMORIAL) != 1 or pow(2, c - 1, c) != 1):
+            continue
         if orc.is_prime(c):
             return c
+
+
+def rand_prime(rng, bits, pool=3):
+    """random prime of exactly `bits` bits; large ones come from a small per-size pool (generation is slow)"""
+    if bits <= 160:
+        return fresh_prime(rng, bits)
+    lst = _POOL.setdefault((id(rng), bits), [])
+    if len(lst) < pool:
+        lst.append(fresh_prime(rng, bits))
+        return lst[-1]
+    return rng.choice(lst)
 
 
 def gen_exhaustive(ctx):
